@@ -5,7 +5,7 @@ from ..core import rule
 from ..index import AnalysisError, dotted, src, walk_no_nested, names_in, dump
 from ..cfg import CFG, const_env_step, eval3, UNK
 from ..domains import linform, Lin, check_pred
-from ..util import explore, mk_atoms, outcomes_by_case, node_calls, last_name, own_expr, func_cfg, stmt_of
+from ..util import reach_conds, explore, mk_atoms, outcomes_by_case, node_calls, last_name, own_expr, func_cfg, stmt_of
 from .slots import MOLITER, MOLECULE
 
 FN = 'MoleculeIterator.__iter__'
@@ -110,6 +110,34 @@ def r1(ctx):
         ctx.emit('C07-R1', okidx and okprov, MOLITER, node, detail + '; ' + why, key=key,
                  witness=None if okidx else {'abstract case': 'to_pop=[1,2] on a buffer of 3: first pop uses index ' + src(idx)},
                  what=f'wrong index compensation {src(cont)}.pop({src(idx)}) in the ejection loop')
+    # range deletions `del buf[a:b]` whose bounds come from a per-element selection: the selected indices need not be contiguous
+    for d in walk_no_nested(f):
+        if not isinstance(d, ast.Delete):
+            continue
+        for t in d.targets:
+            if not (isinstance(t, ast.Subscript) and isinstance(t.slice, ast.Slice)):
+                continue
+            bounds = [b for b in (t.slice.lower, t.slice.upper) if b is not None]
+            sel = {x.id for b in bounds for x in ast.walk(b) if isinstance(x, ast.Name)}
+            lists = []
+            for nm in sorted(sel):
+                apps = [c for c in walk_no_nested(f) if isinstance(c, ast.Call) and isinstance(c.func, ast.Attribute) and c.func.attr == 'append'
+                        and isinstance(c.func.value, ast.Name) and c.func.value.id == nm and len(c.args) == 1]
+                if apps:
+                    lists.append((nm, apps))
+            if not lists:
+                continue
+            n += 1
+            nm, apps = lists[0]
+            conditional = False
+            for c in apps:
+                for l in [x for x in walk_no_nested(f) if isinstance(x, ast.For)]:
+                    if _innermost_loop(l, c) is l:
+                        conditional = conditional or bool(reach_conds(l.body, c))
+            ctx.emit('C07-R1', not conditional, MOLITER, d, f'range deletion del {src(t)} with bounds taken from the selection list {nm}: ' +
+                     ('the selection is conditional per element, so unselected elements between the first and last selected index are removed as well' if conditional
+                      else 'every element is selected, the range is the whole selection'), key=f'removal:{src(t.value)}',
+                     what=f'range deletion over a non-contiguous selection ({nm})')
     ctx.need('C07-R1', n, 2, 'index-based removals in the ejection loops')
 
 
@@ -310,6 +338,24 @@ def r3(ctx):
                  f'molecule removed by {src(node)[:50]} is ' + ('finalised and yielded on every path of the loop body' if ok and yielded and fin else
                                                                'NOT ' + ('yielded' if not yielded else 'finalised') + ' on some path (popped molecules are lost)'),
                  key=f'pop-then-yield:{src(cont)}')
+    # range removals: `X = buf[a:b]; del buf[a:b]; for m in X: finalise, yield`
+    for d in walk_no_nested(f):
+        if isinstance(d, ast.Delete) and any(isinstance(t, ast.Subscript) and isinstance(t.slice, ast.Slice) for t in d.targets):
+            t = [t for t in d.targets if isinstance(t, ast.Subscript) and isinstance(t.slice, ast.Slice)][0]
+            if alias.get(src(t.value), src(t.value)).split('[')[0] not in ('self.molecules', 'self.molecules_per_cell'):
+                continue
+            copies = [a for a in walk_no_nested(f) if isinstance(a, ast.Assign) and isinstance(a.targets[0], ast.Name) and src(a.value) == src(t) and a.lineno < d.lineno]
+            ok = False
+            if copies:
+                v = copies[-1].targets[0].id
+                for l in [x for x in walk_no_nested(f) if isinstance(x, ast.For) and src(x.iter) == v and isinstance(x.target, ast.Name) and x.lineno > d.lineno]:
+                    e = l.target.id
+                    direct_y = any(isinstance(b, ast.Expr) and isinstance(b.value, (ast.Yield, ast.YieldFrom)) and b.value.value is not None and e in names_in(b.value.value) for b in l.body)
+                    direct_f = any(isinstance(b, ast.Expr) and isinstance(b.value, ast.Call) and src(b.value.func) == f'{e}.__finalise__' for b in l.body)
+                    ok = ok or (direct_y and direct_f)
+            n += 1
+            ctx.emit('C07-R3', ok, MOLITER, d, f'molecules removed by del {src(t)[:50]} are ' + ('copied first, then each finalised and yielded' if ok else 'NOT all finalised and yielded'),
+                     key=f'pop-then-yield:{src(t.value)}')
     ctx.need('C07-R3', n, 2, 'pop sites')
     # (b) final drain
     main = _main_loop(f)
